@@ -400,9 +400,8 @@ def nontrivial(c):
 
 def digest_auth_int_case():
     """F21's witness needs a fresh nonce: a well-formed qop=auth-int header for a known user (wrong password is fine)."""
-    import time
     from cherrypy.lib import auth_digest
-    nonce = auth_digest.synthesize_nonce(app.REALM, app.DIGEST_KEY, int(time.time()))
+    nonce = auth_digest.synthesize_nonce(app.REALM, app.DIGEST_KEY, app.FIXED_NOW)
     hdr = ('Digest username="user", realm="%s", nonce="%s", uri="/digest", response="0", qop=auth-int, '
            'nc=00000001, cnonce="x"' % (app.REALM, nonce))
     return {'target': 'digest', 'method': 'GET', 'path': '/digest', 'qs': '', 'proto': 'HTTP/1.1',
@@ -437,7 +436,7 @@ def _worker(args):
     rng = random.Random(seed)
     app.setup()
     out = []
-    dctx = {'realm': app.REALM, 'key': app.DIGEST_KEY}
+    dctx = {'realm': app.REALM, 'key': app.DIGEST_KEY, 'now': app.FIXED_NOW}
     try:
         for _ in range(n):
             c = gen.gen_case(rng, digest_ctx=dctx)
@@ -449,7 +448,7 @@ def _worker(args):
 
 
 def request_stream(ctx, n):
-    dctx = {'realm': app.REALM, 'key': app.DIGEST_KEY}
+    dctx = {'realm': app.REALM, 'key': app.DIGEST_KEY, 'now': app.FIXED_NOW}
     if ctx.quick() or n <= 6000:
         for _ in range(n):
             c = gen.gen_case(ctx.rng, digest_ctx=dctx)
@@ -754,7 +753,7 @@ def search(ctx, around=None):
     app.setup()
     _ensure_codec()
     try:
-        dctx = {'realm': app.REALM, 'key': app.DIGEST_KEY}
+        dctx = {'realm': app.REALM, 'key': app.DIGEST_KEY, 'now': app.FIXED_NOW}
         target = None
         if isinstance(around, dict) and around.get('unit'):
             target = {'ranges': 'file', 'qs': 'plain', 'urlenc': 'form', 'multipart': 'upload', 'fstar': 'plain',
